@@ -2,6 +2,7 @@
 (exact rational values of the double coefficients); IEEE evaluation error of polyval is not decided."""
 import json
 import os
+import numpy as np
 from fractions import Fraction
 import z3
 from pyvc.harness import harness
@@ -236,13 +237,21 @@ def _scaling(vc):
     # contracts of the two conversions (harness thermocouple_eval): tokens F(x), G(x)
     F = z3.Function("FWD", z3.RealSort(), z3.RealSort())
     G = z3.Function("INV", z3.RealSort(), z3.RealSort())
-    vc.interp.contracts_at_calls["nptdms.thermocouples:Thermocouple.celsius_to_mv"] = \
-        lambda i, f, a, k: SymReal(F(z3real(a[1])))
-    vc.interp.contracts_at_calls["nptdms.thermocouples:Thermocouple.mv_to_celsius"] = \
-        lambda i, f, a, k: SymReal(G(z3real(a[1])))
-    r = vc.call_method(sc, "scale", x)
+    from pyvc.npmodel import ListArr
+
+    def elementwise(fn):
+        return lambda i, f, a, k: ListArr([SymReal(fn(z3real(e))) for e in a[1].items], "float64")
+    vc.interp.contracts_at_calls["nptdms.thermocouples:Thermocouple.celsius_to_mv"] = elementwise(F)
+    vc.interp.contracts_at_calls["nptdms.thermocouples:Thermocouple.mv_to_celsius"] = elementwise(G)
+    data = ListArr([x], "float32")
+    data.alias = "input"
+    r = vc.call_method(sc, "scale", data)
     vc.ensure("scale/no-exception", r.kind == "ret")
+    if r.kind != "ret":
+        return
     if direction == 1:
-        vc.ensure("direction-1: temperature -> microvolts = 1000 * forward(T)", r.value == SymReal(1000 * F(x.e)))
+        vc.ensure("direction-1: temperature -> microvolts = 1000 * forward(T)", r.value.items[0] == SymReal(1000 * F(x.e)))
     else:
-        vc.ensure("direction-0: microvolts -> temperature = inverse(uV / 1000)", r.value == SymReal(G(x.e / 1000)))
+        vc.ensure("direction-0: microvolts -> temperature = inverse(uV / 1000)", r.value.items[0] == SymReal(G(x.e / 1000)))
+    vc.ensure("c14/converted-to-double-before-scaling", r.value.dtype_ == np.dtype("float64"))
+    vc.ensure("c13/raw-data-not-modified", not vc.st.ghost.get("purity_violations"), kind="frame")
